@@ -241,7 +241,10 @@ def text_strategy():
                 planted.append(["3", twin])
             elif kind == "minor":
                 v = draw(gen.valid("3"))
-                chunks.append(" " + v.replace("CVSS:3.0", "CVSS:3.%d" % draw(st.integers(2, 9))).replace("CVSS:3.1", "CVSS:3.%d" % draw(st.integers(2, 9))) + " ")
+                # an unsupported minor version, or a supported one in digits that are not ASCII / with leading zeros: the regular
+                # expression's \d takes any of them, the constructor must not
+                md = draw(st.sampled_from(("2", "3", "5", "9", "\u0660", "\u0661", "\uff10", "\uff11", "\u06f1", "\u0967", "\U0001d7d9", "\u00b9", "\u2460", "01", "00", "1\u0661", "10")))
+                chunks.append(" " + v.replace("CVSS:3.0", "CVSS:3." + md).replace("CVSS:3.1", "CVSS:3." + md) + " ")
             else:
                 chunks.append(" ")
             kinds.add(kind)
